@@ -100,6 +100,27 @@ Theorem tile_limit_no_effects :
     exists e, serve_map mp se ly cached q = (Err e, []).
 Proof. exact serve_map_tile_limit. Qed.
 
+(* WMS-C (GetMap with tiled=true: the tile is addressed by its BBOX).  A request whose BBOX is not the rectangle of the
+   affected tile of the tile set (tile_source = src_bbox of get_affected_tiles) - some border differs by 1/10 of a
+   request pixel or more, tiled_aligned = false - is refused without effects. *)
+Theorem tiled_request_off_tile_no_effects :
+  forall mp se ly cached q q1 src,
+    srs_limited se q = Some q1 -> mtiled q1 = true -> tile_source ly q1 = Some src -> tiled_aligned q1 src = false ->
+    exists e, serve_map mp se ly cached q = (Err e, []).
+Proof. exact serve_map_tiled_unaligned. Qed.
+
+(* Conversely: whenever a tiled request causes any cache operation or upstream request, every border of its BBOX is
+   closer than 1/10 of a request pixel to the border of that tile (the x pixel for the first two values, the y pixel
+   for the last two - as bbox_equals applies its two deltas). *)
+Theorem tiled_request_with_effects_addresses_the_tile :
+  forall mp se ly cached q q1 s0 s1 s2 s3,
+    srs_limited se q = Some q1 -> mtiled q1 = true -> tile_source ly q1 = Some (s0, s1, s2, s3) ->
+    snd (serve_map mp se ly cached q) <> [] ->
+    let '(b0, b1, b2, b3) := mb q1 in
+    Z.abs (b0 - s0) * (mw q1 * 10) < Z.abs (b2 - b0) /\ Z.abs (b1 - s1) * (mw q1 * 10) < Z.abs (b2 - b0) /\
+    Z.abs (b2 - s2) * (mh q1 * 10) < Z.abs (b3 - b1) /\ Z.abs (b3 - s3) * (mh q1 * 10) < Z.abs (b3 - b1).
+Proof. exact serve_map_tiled_effects_addressed. Qed.
+
 (* The boundary is exact on every grid and level: with an offered format and acceptable dimension values, for every
    GetTile service, the first and last column / row of the matrix are served and the addresses one step outside
    (-1, nx, ny) are refused without effects. *)
